@@ -157,7 +157,19 @@ fn significant(tokens: &[scan::Token], src: &str) -> Vec<Sig> {
                 // a comma is tolerated only as a trailing comma (directly before a closing parenthesis): `(a, x,) = x`;
                 // `(/x, = x)` is a separate field, not a pun with the previous `x`
                 let trailing_commas_only = between.iter().enumerate().all(|(n, b)| *b != "," || between.get(n + 1) == Some(&")"));
-                let is_pun = between.iter().filter(|b| **b == "=").count() == 1 && between.iter().all(|b| matches!(*b, "=" | "(" | ")" | ",")) && trailing_commas_only;
+                // (a chain `x = x = (x)` is printed `x = = x`: the inner field is punned, the outer one cannot be; any number of
+                // `=` may therefore sit between two occurrences that count once — which level of naming was kept is C12's
+                // subject, decided on the desugared term)
+                let is_pun = between.iter().filter(|b| **b == "=").count() >= 1 && between.iter().all(|b| matches!(*b, "=" | "(" | ")" | ",")) && trailing_commas_only;
+                // closing parentheses (and a trailing comma) belong to the first occurrence, opening ones to the second:
+                // `(x) = (x)`; in `(.., = x,) (= x, ..)` the two are fields of different tuples
+                let first_eq = between.iter().position(|b| *b == "=");
+                let last_eq = between.iter().rposition(|b| *b == "=");
+                let well_nested = match (first_eq, last_eq) {
+                    | (Some(f), Some(l)) => between[..f].iter().all(|b| matches!(*b, ")" | ",")) && between[l + 1..].iter().all(|b| *b == "(") && between[f..=l].iter().all(|b| *b == "="),
+                    | _ => false,
+                };
+                let is_pun = is_pun && well_nested;
                 if prev.norm == norm && is_pun {
                     // the surviving occurrence is the binder / payload: it anchors
                     // the surviving occurrence is the binder / payload (the later one): it is the anchor
